@@ -214,9 +214,9 @@ Proof.
   induction ix as [|[k p] ix IH]; intros Hr.
   - exists []. constructor.
   - destruct IH as [m Hm]; [intros k0 p0 Hin; apply Hr; right; exact Hin|].
-    destruct (Hr k p (or_introl eq_refl)) as (r & Hrp & _).
+    destruct (Hr k p (or_introl eq_refl)) as (r & Hrp & _ & Hty).
     exists ((k, r_value r) :: m). constructor; [|exact Hm]. split; [reflexivity|].
-    cbn [snd]. unfold val_at. rewrite Hrp. reflexivity.
+    cbn [snd]. unfold val_at. rewrite Hrp, Hty. reflexivity.
 Qed.
 
 Lemma batch_flush_rotate_log d b d' b' evs :
